@@ -314,4 +314,7 @@ MUTANTS = [
     ('cmov-arity', 'miasmx/arch/ia32_sem.py', "def cmovs(info, a, b):", "def cmovs(info, a, b, c):", 'C11.D1'),
     ('neg-slice', 'miasmx/arch/ia32_sem.py', "def update_flag_nf(a):\n    return [ExprAff(nf, get_op_msb(a))]", "def update_flag_nf(a):\n    return [ExprAff(nf, a[a.get_size():a.get_size()+1])]", 'C11.D'),
     ('mnemo-func-wrong', 'miasmx/arch/ia32_sem.py', '"lahf": lahf,', '"lahf": push,', 'C11.D'),
+    ('jmp-short-8bit', 'miasmx/arch/ia32_sem.py', "    if isinstance(a, ExprInt) and a.get_size() == 8:\n        # short jump", "    if False:\n        # short jump", 'C11.D3'),
+    ('movzx-r16-empty-slot', 'miasmx/arch/ia32_sem.py', "    if b.get_size() == a.get_size():\n        # (66 0F B7 /r: both operands are words)\n        return [ExprAff(a, b)]\n", "", 'C11.D3'),
+    ('sidt-const32', 'miasmx/arch/ia32_sem.py', "ExprInt16(0x8245)))", "ExprInt32(0x8245)))", 'C11.D3'),
 ]
